@@ -226,7 +226,7 @@ def ti_corruptions(rng, table, n):
             del t[s]
             what = "delete-section:variant"
         else:
-            choices = [("release", "version", rng.choice(["1.", "2b", "1..2"])), ("tree", "arch", ""), ("tree", "build_timestamp", rng.choice(["abc", "0", ""])),
+            choices = [("release", "version", rng.choice(["1.", "2b", "1..2"])), ("tree", "arch", ""), ("tree", "build_timestamp", rng.choice(["abc", "0", "", "nan", "inf", "-inf", "Infinity", "1e999", "NaN"])),
                        ("release", "is_layered", "maybe")]
             choices += [(s, "type", "bogus") for s in vsecs] + [(s, "type", "layered-product") for s in vsecs] + [(s, "id", "a-b") for s in vsecs]
             choices += [(s, sorted(t[s])[0], "/abs/img") for s in isecs if t[s]]
